@@ -256,6 +256,13 @@ func c04(p *Prog, r *Report) {
 		if fn == nil {
 			continue
 		}
+		if ml, fixed := minLenOfReads(sp.reads); true {
+			fl := int64(-1)
+			if fixed {
+				fl = ml
+			}
+			lengthPrechecks(p, r, R1, sp.name, fn, ml, fl)
+		}
 		switch sp.name {
 		case "TokenRequest type 3":
 			copiedInto(p, r, R1, sp.name, fn, s, 0, "EncryptedTokenRequest")
@@ -306,6 +313,7 @@ func c04Type5Request(p *Prog, r *Report, R1 string) {
 	if fn == nil {
 		return
 	}
+	lengthPrechecks(p, r, R1, name, fn, 4, -1) // type || key id || varint(0): an empty element list
 	s := p.NewSym(fn)
 	rps := s.ff.RetPoints(verdictIndex(fn))
 	n := 0
@@ -426,6 +434,7 @@ func c04EncapKey(p *Prog, r *Report, R1 string) {
 	if fn == nil {
 		return
 	}
+	lengthPrechecks(p, r, R1, name, fn, 7, -1)
 	for _, rp := range succ {
 		rpc := rp
 		items := p.ReadSequence(s, &rpc)
@@ -464,6 +473,7 @@ func c04Challenge(p *Prog, r *Report, R1 string) {
 	if fn == nil {
 		return
 	}
+	lengthPrechecks(p, r, R1, name, fn, 7, -1)
 	for _, rp := range succ {
 		rpc := rp
 		items := p.ReadSequence(s, &rpc)
@@ -792,6 +802,9 @@ func c04BatchRequest(p *Prog, r *Report, R4 string) {
 		return
 	}
 	r.List("functions", shortName(fn))
+	if ne1, ok := p.constInt("~/tokens/type1", "Ne"); ok {
+		lengthPrechecks(p, r, R4, name, fn, 1+2+1+ne1, -1) // one type-1 request, the shortest element
+	}
 	s := p.NewSym(fn)
 	// tag -> constructed type
 	tagOf := map[string]string{}
@@ -1168,6 +1181,8 @@ func c04BatchResponses(p *Prog, r *Report, R4 string, ne1, nk1, nk2 int64) {
 			}
 		}
 	}
+	// shortest well-formed list for a non-empty batch: count prefix + one absent entry
+	lengthPrechecks(p, r, R4, name, rfn, 2, -1)
 	want := map[string]int64{"1": ne1 + 2*nk1, "2": nk2}
 	ok := len(lens) == 2 && lens["1"] == want["1"] && lens["2"] == want["2"]
 	r.Check(ok, R4, name+": decoder response length per type", p.Pos(rfn.Pos()), fmt.Sprintf("type 1 -> %d (Ne+2Nk), type 2 -> %d (Nk)", want["1"], want["2"]), fmt.Sprintf("decoder uses lengths %v, required %v (type-1 response = element || DLEQ proof = Ne+2Nk, type-2 = Nk)", lens, want))
